@@ -50,6 +50,11 @@ pub fn run_stdin() -> Result<(), String> {
                 }
                 Err(_) => "bad-op".into(),
             },
+            // `Lazy::of_value`: no thunk at all, the counter of that cell stays 0
+            ["new", "v", v] => match v.parse::<i64>() {
+                Ok(v) => m.alloc(Arc::new(AtomicUsize::new(0)), Lazy::of_value(v)),
+                Err(_) => "bad-op".into(),
+            },
             ["new", "app", fid, h] => match (fid.parse::<usize>(), m.live(h)) {
                 (Ok(fid), Some((_, src))) => {
                     let cnt = Arc::new(AtomicUsize::new(0)); let c2 = cnt.clone();
